@@ -7,7 +7,9 @@
 (* MustKeep(s): the characters that are certainly *not* part of an escape *)
 (* sequence under the most liberal reading - everything from an           *)
 (* introducer up to and including the first final byte (or up to the next *)
-(* introducer / the end when there is none) may belong to a sequence.     *)
+(* introducer / the end when there is none) may belong to a sequence -    *)
+(* except characters above 0x7F (other than the 8-bit CSI): no byte class *)
+(* of ECMA-48 control sequences contains them, so they are text.          *)
 (* OrdinaryCsi(s): every escape sequence in s is a complete numeric CSI   *)
 (* sequence  CSI (digits (; digits)* )? final  (a lone ESC that starts no  *)
 (* sequence is ordinary text); Strip(s) removes those sequences.           *)
@@ -32,6 +34,7 @@ SkipLiberal(s, j) ==
   IF j > Len(s) THEN <<>>
   ELSE IF IsIntro(s[j]) THEN ScanKeep(s, j)
   ELSE IF IsFinal(s[j]) THEN ScanKeep(s, j + 1)
+  ELSE IF s[j] >= 128 THEN <<s[j]>> \o SkipLiberal(s, j + 1)   \* no byte class of a control sequence holds it: it is text (the sequence may go on)
   ELSE SkipLiberal(s, j + 1)
 MustKeep(s) == ScanKeep(s, 1)
 
